@@ -148,6 +148,15 @@ def run(ctx) -> Result:
         c02.check_run(r, model, res, f"chains-{kind}")
         check_chains(r, model, res, f"chains-{kind}")
         res.dist[f"broker:{kind}"] += len(jobs)
+    # day-scale back-off (RabbitMQ only: its fake server is event-driven, nothing polls through the virtual days)
+    rng = Rng(seed, "c04/rabbit-days")
+    jobs = [j for j in make_jobs(rng, False) if j["N"] <= 2 and "defer_by" not in j and not j.get("forced") and j["fail_kind"] == "raise"][:10]
+    sc = {"jobs": jobs, "converter": "basic", "policy": {"kind": "const", "us": (86400 + 5) * S}, "horizon_s": 3 * 86400.0 + 60,
+          "tasks_limit": 1000, "broker": "rabbit"}
+    r = vtime.run(lambda loop, s=sc: c02.run_scenario(s), budget=120_000_000)
+    c02.check_run(r, model, res, "chains-rabbit-days")
+    check_chains(r, model, res, "chains-rabbit-days")
+    res.dist["broker:rabbit-day-scale"] += len(jobs)
     return res
 
 
